@@ -328,6 +328,44 @@ pub fn run_rootops(cfgs: &[String], out_dir: &Path) -> Value {
         on_fresh!("remove_dir_all(root)", |r: &VfsPath| r.remove_dir_all());
         on_fresh!("walk_dir(root)", |r: &VfsPath| r.walk_dir().map(|it| it.take(100).count()));
         on_fresh!("metadata(root)", |r: &VfsPath| r.metadata());
+        // ... and the same filesystem after its own root directory has been taken away behind its back
+        // (a PhysicalFS whose directory was deleted, an altroot whose base directory was removed)
+        {
+            let w = fresh();
+            let mut gone = false;
+            if let Some(sandbox) = w.tmp.get(0) {
+                gone = std::fs::remove_dir_all(sandbox.join("root")).is_ok();
+            } else if let Some(u) = &w.under {
+                let base = u.root.join(u.prefix.join("/")).unwrap();
+                gone = base.remove_dir_all().is_ok();
+            }
+            if gone {
+                let root = w.root.clone();
+                for name in ["", "x", "x/y/z", "a", "a/b", "f"] {
+                    let p = if name.is_empty() { root.clone() } else { root.join(name).unwrap() };
+                    let tag = |op: &str| format!("[root gone] {op}({name})");
+                    rec(&tag("exists"), cls(guard(|| p.exists())));
+                    rec(&tag("metadata"), cls(guard(|| p.metadata())));
+                    rec(&tag("is_dir"), cls(guard(|| p.is_dir())));
+                    rec(&tag("read_dir"), cls(guard(|| p.read_dir().map(|it| it.count()))));
+                    rec(&tag("walk_dir"), cls(guard(|| p.walk_dir().map(|it| it.take(50).count()))));
+                    rec(&tag("open_file"), cls(guard(|| p.open_file().map(|mut h| { let mut b = vec![]; let _ = h.read_to_end(&mut b); }))));
+                    rec(&tag("create_dir"), cls(guard(|| p.create_dir())));
+                    rec(&tag("create_dir_all"), cls(guard(|| p.create_dir_all())));
+                    rec(&tag("create_file"), cls(guard(|| p.create_file().map(|mut h| h.write_all(b"q")))));
+                    rec(&tag("append_file"), cls(guard(|| p.append_file().map(|mut h| h.write_all(b"q")))));
+                    rec(&tag("set_mtime"), cls(guard(|| p.set_modification_time(tick(1)))));
+                    rec(&tag("remove_file"), cls(guard(|| p.remove_file())));
+                    rec(&tag("remove_dir"), cls(guard(|| p.remove_dir())));
+                    rec(&tag("remove_dir_all"), cls(guard(|| p.remove_dir_all())));
+                    rec(&tag("copy_file"), cls(guard(|| p.copy_file(&root.join("cp").unwrap()))));
+                    if !name.is_empty() {
+                        // (moving the root below itself is the documented non-terminating case)
+                        rec(&tag("move_dir"), cls(guard(|| p.move_dir(&root.join("mv").unwrap()))));
+                    }
+                }
+            }
+        }
         out.begin(&json!({"ev":"hostile","kindtag":"rootops","cfg":cfg,"arg":"<operations with the root as target or destination>","prefix":[],
             "join":{"c":"ok","path":""},"ops":ops,"ucalls":[],"outside_before":[],"outside_after":[],"leak":false,"shape":{"dotdot":false,"dslash":false,"abs":false}}));
         n += 1;
